@@ -1,7 +1,7 @@
 (* C10 — serde and ts attribute spellings are equivalent; ts wins; unknown serde is inert.
    Statements only; proofs in Proofs/Attr_proofs.v.  The key tables (Gen/Tables.v) are regenerated
    from macros/src/attr/*.rs on every run: the table theorems are re-proved against the current source. *)
-From TsRs Require Import Base.Str Base.Outcome Gen.Tables Model.Attr Proofs.Attr_proofs.
+From TsRs Require Import Base.Str Base.Outcome Gen.Tables Model.Attr Proofs.Attr_proofs Proofs.Validity_table_proofs.
 From Coq Require Import List.
 Import ListNotations.
 
@@ -67,6 +67,14 @@ Theorem C10_compat_off :
   forall pos attrs, from_attrs false pos attrs = from_attrs false pos (filter fst attrs).
 Proof. exact compat_off. Qed.
 
+(* several attributes of one item are merged left-biased, field by field (`self.x.or(other.x)`, `self.x || other.x`; only
+   the documentation and the two collections `concrete` / `bound` differ): read from the four Attr::merge functions on every
+   run; the model's merge (concatenation of first-match association lists) is that *)
+Theorem C10_merge_is_left_biased :
+  forallb left_biased (merge_rows_struct ++ merge_rows_enum ++ merge_rows_variant ++ merge_rows_field) = true /\
+  (forall f a b, value_of f (a ++ b) = match value_of f a with Some v => Some v | None => value_of f b end).
+Proof. split; [exact merge_rows_left_biased | exact value_of_app]. Qed.
+
 (* the inputs that used to lose their neighbour *)
 Example C10_regressions :
   from_attrs true PEnum [(false, [KId (lit "deny_unknown_fields"); KComma; KId (lit "tag"); KEq; KStr (lit "type")])]
@@ -87,3 +95,4 @@ Print Assumptions C10_serde_parser_refines_entries.
 Print Assumptions C10_unknown_inert.
 Print Assumptions C10_unknown_alone_inert.
 Print Assumptions C10_compat_off.
+Print Assumptions C10_merge_is_left_biased.
